@@ -797,8 +797,19 @@ class Inliner:
                 if en is None or ex is None or len(ex.args.args) != 4 or len(en.args.args) != 1:
                     continue
                 exc_params = {a.arg for a in ex.args.args[1:]}
+                on_error = None
                 if any(isinstance(n, ast.Name) and n.id in exc_params for n in ast.walk(ex)):
-                    continue
+                    # __exit__ that acts only when the block raised:  if exc_type is not None: <cleanup>   [return False]
+                    b_ = [x for x in ex.body if not (isinstance(x, ast.Expr) and isinstance(x.value, ast.Constant))]
+                    t_ = b_[0].test if b_ and isinstance(b_[0], ast.If) else None
+                    if (len(b_) in (1, 2) and t_ is not None and not b_[0].orelse and isinstance(t_, ast.Compare) and len(t_.ops) == 1 and isinstance(t_.ops[0], ast.IsNot) and isinstance(t_.left, ast.Name)
+                            and t_.left.id == ex.args.args[1].arg and isinstance(t_.comparators[0], ast.Constant) and t_.comparators[0].value is None
+                            and not any(isinstance(n, ast.Name) and n.id in exc_params for x in b_[0].body for n in ast.walk(x))
+                            and not any(isinstance(n, (ast.Return, ast.Raise)) for x in b_[0].body for n in ast.walk(x))
+                            and (len(b_) == 1 or (isinstance(b_[1], ast.Return) and (b_[1].value is None or (isinstance(b_[1].value, ast.Constant) and not b_[1].value.value))))):
+                        on_error = b_[0].body
+                    else:
+                        continue
                 if any(not (r.value is None or (isinstance(r.value, ast.Constant) and not r.value.value)) for r in _returns_in(ex)):
                     continue
                 if it.optional_vars is not None:
@@ -817,8 +828,14 @@ class Inliner:
                 def call(meth, args):
                     c = ast.Call(func=ast.Attribute(value=ast.Name(id=v, ctx=ast.Load()), attr=meth, ctx=ast.Load()), args=args, keywords=[])
                     return ast.Expr(value=c)
-                new = [ast.Assign(targets=[ast.Name(id=v, ctx=ast.Store())], value=ce), call("__enter__", []),
-                       ast.Try(body=s.body, handlers=[], orelse=[], finalbody=[call("__exit__", [ast.Constant(value=None) for _ in range(3)])])]
+                if on_error is not None:
+                    sp_ = ex.args.args[0].arg
+                    cleanup = [_Rename({}, {sp_: ast.Name(id=v, ctx=ast.Load())}).visit(copy.deepcopy(x)) for x in on_error]
+                    handler = ast.ExceptHandler(type=None, name=None, body=cleanup + [ast.Raise(exc=None, cause=None)])
+                    new = [ast.Assign(targets=[ast.Name(id=v, ctx=ast.Store())], value=ce), call("__enter__", []), ast.Try(body=s.body, handlers=[handler], orelse=[], finalbody=[])]
+                else:
+                    new = [ast.Assign(targets=[ast.Name(id=v, ctx=ast.Store())], value=ce), call("__enter__", []),
+                           ast.Try(body=s.body, handlers=[], orelse=[], finalbody=[call("__exit__", [ast.Constant(value=None) for _ in range(3)])])]
                 if existing is not None:
                     new = new[1:]
                     if alias:
@@ -1351,6 +1368,12 @@ class Inliner:
                     return None  # leaving the block by return/break would still run what follows the yield
                 self._note(q, fq)
                 return pre + body[:i] + bound() + list(s.body) + body[i + 1:]
+            if isinstance(st, ast.Try) and st.handlers and not st.orelse and not st.finalbody and len(st.body) == 1 and is_yield_stmt(st.body[0]) \
+                    and all(h.body and isinstance(h.body[-1], ast.Raise) and h.body[-1].exc is None and not any(isinstance(n, (ast.Yield, ast.Return)) for n in ast.walk(h)) for h in st.handlers):
+                # try: yield  except: <cleanup>; raise   - the cleanup runs when the block raises, and the exception goes on
+                st.body = bound() + list(s.body)
+                self._note(q, fq)
+                return pre + body
             if isinstance(st, ast.Try) and not st.handlers and not st.orelse and st.finalbody and any(is_yield_stmt(x) for x in st.body):
                 k = next(j for j, x in enumerate(st.body) if is_yield_stmt(x))
                 if st.body[k + 1:] and escapes:
